@@ -182,7 +182,7 @@ Proof.
     rewrite Hg in Al. rewrite N.eqb_refl in Al. simpl andb in Al.
     assert (existsb (N.eqb e) [0x1201; 0x1202; 0x1203; 0x1221; 0x1222; 0x1223] = true) as E.
     { apply existsb_exists. exists e. split; [exact He | apply N.eqb_refl]. }
-    congruence.
+    simpl in E. congruence.
   - intros Hm. change private_mod with 2 in Ap. change private_rem with 1 in Ap. rewrite Hm in Ap. discriminate Ap.
 Qed.
 
@@ -200,8 +200,7 @@ Theorem values cfg f ds st :
           (survivors_from cfg [] ds) (s_std st).
 Proof.
   intros H. destruct (run_facts _ _ _ _ H) as [_ [HF _]].
-  apply (Forall2_weaken _ _ _ _ (fun e x => _) HF).
-Unshelve.
+  revert HF. apply Forall2_weaken.
   intros e x [_ [Ht Hv]]. split; [exact Ht|].
   destruct (snd e); try (destruct Hv as [Hv _]; exact Hv).
   destruct Hv as [rs [HM [_ Hval]]]. exists rs. split; [apply mapM_Forall2; exact HM | exact Hval].
@@ -322,11 +321,13 @@ Lemma no_suffix_clash_spec ds :
 Proof.
   unfold no_suffix_clash, keytags. intros H e1 e2 H1 H2 Heq.
   rewrite forallb_forall in H.
-  pose proof (H (get_elem_key (fst e1), etag e1)) as Ha.
-  rewrite forallb_forall in Ha; [|apply in_map_iff; exists e1; split; [reflexivity | exact H1]].
-  pose proof (Ha (get_elem_key (fst e2), etag e2)) as Hb. simpl in Hb.
-  rewrite Heq in Hb. rewrite str_eqb_refl in Hb. simpl in Hb.
-  assert (false = true) by (apply Hb; apply in_map_iff; exists e2; split; [reflexivity | exact H2]). discriminate.
+  assert (In (get_elem_key (fst e1), etag e1) (map (fun e => (get_elem_key (fst e), etag e)) ds)) as I1
+    by (apply in_map_iff; exists e1; split; [reflexivity | exact H1]).
+  assert (In (get_elem_key (fst e2), etag e2) (map (fun e => (get_elem_key (fst e), etag e)) ds)) as I2
+    by (apply in_map_iff; exists e2; split; [reflexivity | exact H2]).
+  pose proof (H _ I1) as Ha. rewrite forallb_forall in Ha.
+  pose proof (Ha _ I2) as Hb. simpl in Hb.
+  rewrite Heq in Hb. rewrite str_eqb_refl in Hb. discriminate Hb.
 Qed.
 
 Lemma no_dot_keys_spec ds : no_dot_keys ds = true -> forall e, In e ds -> ~ In 46 (get_elem_key (fst e)).
@@ -365,18 +366,18 @@ Proof.
   assert (Hstdtags : NoDup (map std_tag (s_std st))).
   { rewrite (Forall2_map_eq etag std_tag (survivors_from cfg [] ds) (s_std st)).
     - apply survivors_tags_nodup. exact Htags.
-    - apply (Forall2_weaken _ _ _ _ (fun e x => _) HF). }
+    - revert HF. apply Forall2_weaken. intros e x [_ [Ht _]]. exact Ht. }
   assert (Hstdclash : forall x y, In x (s_std st) -> In y (s_std st) -> std_name y <> std_name x ++ [95] ++ tag_to_str (std_tag x)).
   { intros x y Hx Hy. destruct (Hprov x Hx) as [e1 [He1 [Hn1 Ht1]]]. destruct (Hprov y Hy) as [e2 [He2 [Hn2 Ht2]]].
-    rewrite Hn1, Hn2, Ht1. apply no_suffix_clash_spec; assumption. }
+    rewrite Hn1, Hn2, Ht1. apply (no_suffix_clash_spec ds); assumption. }
   assert (Hkeys : NoDup (map (final_key (s_std st)) (s_std st))) by (apply final_keys_nodup; assumption).
   assert (Hnodot : forall x, In x (s_std st) -> ~ In 46 (final_key (s_std st) x)).
-  { intros x Hx. apply final_key_no_dot. destruct (Hprov x Hx) as [e [He [Hn _]]]. rewrite Hn. apply no_dot_keys_spec; assumption. }
+  { intros x Hx. apply final_key_no_dot. destruct (Hprov x Hx) as [e [He [Hn _]]]. rewrite Hn. apply (no_dot_keys_spec ds); assumption. }
   (* translator entries *)
   assert (Htmprov : forall p, In p (s_tmeta st) -> ~ In 46 (fst p) /\ NoDup (map fst (snd p))).
   { intros [tn meta] Hp. rewrite Htm in Hp. apply tl_fold_prov in Hp. destruct Hp as [[] | [e [t [Hin [-> [Hf _]]]]]].
     pose proof (translated_bound_by _ _ _ _ _ Hm Hin) as [c [_ [_ [_ [Ht _]]]]]. simpl in Ht.
-    split; [apply trans_names_dot_free_spec; assumption | apply (Hdicts t e meta Ht Hf)]. }
+    split; [apply (trans_names_dot_free_spec cfg); assumption | apply (Hdicts t e meta Ht Hf)]. }
   assert (Htmnames : NoDup (map fst (s_tmeta st))) by (rewrite Htm; apply tl_fold_nodup; constructor).
   assert (Htrans : NoDup (map fst (trans_part (s_tmeta st)))) by (apply trans_part_nodup; assumption).
   pose proof (finish_clean st Hkeys Hnodot Htrans) as Hfin.
